@@ -17,7 +17,13 @@ PROPS_MODULE = "NumbersModel.Props.C03"
 THEOREMS = [f"NumbersModel.Props.C03.{t}" for t in (
     "wf_init", "abs_init", "wf_step", "refines", "ok_only_if_valid", "invalid_raises_IndexError", "valid_succeeds",
     "wf_reachable", "wf_reachable_from", "refines_history", "isolation", "structural_ops_pure", "save_pure",
-    "saved_grid_reopens", "wf_doc_step", "cache_key_injective", "memo_transparent")]
+    "saved_grid_reopens", "wf_doc_step", "cache_key_injective", "memo_transparent")] + [
+    # the argument checks of the four structural edits as py2lean regenerates them from document.py on every run
+    f"NumbersModel.Props.C03.Src.{t}" for t in ("src_add_row_args", "src_add_column_args", "src_delete_row_args",
+                                                 "src_delete_column_args", "src_edit_refused_early", "src_memo_call", "src_memo_hit")] + [
+    f"NumbersModel.Translated.{t}" for t in ("add_row_args_eq_model", "add_column_args_eq_model", "delete_row_args_eq_model",
+                                              "delete_column_args_eq_model", "cache_inner_eq_model")]
+TRANSLATED_GROUPS = ("Edit", "Cache")
 PARTIAL = {
     "memo_transparent": "proved for integer key arguments and pure methods (Model/Cache.lean); that the decorated methods "
     "of model.py are pure between invalidations is exercised by the interleaved multi-table histories, not proved",
@@ -48,10 +54,19 @@ MANIFEST = {
             "table_roundtrip) is the plain grid abs s, cell by cell, with exactly num_rows x num_cols cells; together with "
             "refines_history: open, edit by any accepted history, save, reopen = the plain-grid fold of the history. The "
             "file layers below the TST objects (protobuf / IWA / zip) and value <-> cell conversion are checked by the "
-            "histories' save/reopen steps, not proved (C05, C01).",
+            "histories' save/reopen steps, not proved (C05, C01). The argument checks of add_row / add_column / delete_row / "
+            "delete_column (everything before the first mutation) are additionally TRANSLATED from document.py on every run "
+            "(harness/py2lean.py -> Gen/TrEdit.lean); each model operation is proved to be the translated prefix followed by "
+            "the rest of the operation (Lemmas/TrEdit.lean), their acceptance domain is stated in closed form over the "
+            "translation (Props.C03.Src.src_*_args, src_edit_refused_early), and the translated checks are run against the "
+            "real methods for every count and start in -2..size+2 (trdriver). The memoising wrapper of numbers_cache.py "
+            "(cache.cache_decorator.inner_multi_args, the instance dict threaded as a state variable) is translated as well "
+            "(Gen/TrCache.lean) and proved to return what the model's memoCall returns and to leave the same store content "
+            "(Lemmas/TrCache.lean; Props.C03.Src.src_memo_call, src_memo_hit).",
     "note": "fixes/C03-edit-counts.patch and fixes/C03-negative-coords.patch repair genuine defects found by the check "
             "(out-of-range counts corrupt num_rows/num_cols vs data; write(-1, 0, v) stores a cell that reports row -1).",
-    "technique": "Lean 4 proof (loop invariants, induction over histories, refinement to a list-of-lists spec) + "
+    "technique": "Lean 4 proof (loop invariants, induction over histories, refinement to a list-of-lists spec; argument "
+                 "checks of the four structural edits proved equal to their translation from the Python source) + "
                  "lock-step differential correspondence + reference-grid oracle",
 }
 ASSUMPTIONS = [
@@ -407,10 +422,17 @@ def cache_correspondence(ctx: Ctx):
     from numbers_parser.numbers_cache import Cacheable, cache
     rng = ctx.rng
     req, out = [], []
-    for _ in range(400 if ctx.quick else 20000):
-        n = rng.randrange(1, 4)
-        pool = [rng.choice([0, 1, -1, 2, 10, 12, -3, 100, 65536, -65536, 10**9]) for _ in range(4)]
-        calls = [tuple(rng.choice(pool) for _ in range(n)) for _ in range(rng.randrange(1, 9))]
+    # argument tuples whose decimal texts run into each other unless the key keeps them apart (1|12 vs 11|2, -1|2 vs -12, ...)
+    fixed = [[(1, 12), (11, 2), (1, 12)], [(11, 2), (1, 12)], [(1, 23, 4), (12, 3, 4), (1, 2, 34)], [(10, 0), (1, 0), (100, 0)],
+             [(1, -1), (1, 1)], [(0, 0), (0,) * 2, (0, 10), (1, 0)], [(12,), (1,), (2,)]]
+    for it in range((400 if ctx.quick else 20000) + len(fixed)):
+        if it < len(fixed):
+            calls = fixed[it]
+            n = len(calls[0])
+        else:
+            n = rng.randrange(1, 4)
+            pool = [rng.choice([0, 1, -1, 2, 10, 12, -3, 100, 65536, -65536, 10**9]) for _ in range(4)]
+            calls = [tuple(rng.choice(pool) for _ in range(n)) for _ in range(rng.randrange(1, 9))]
         misses = []
 
         class T(Cacheable):
@@ -430,11 +452,54 @@ def cache_correspondence(ctx: Ctx):
             req.append("cache key " + " ".join(map(str, a)))
             k = ".".join(str(x) for x in a)
             out.append(("ok " + common.enc_text(k)) if k in t._cache["m"] else "ok <missing>")
-    ctx.correspond("numbers_cache: memo keys, results and miss counts on a real Cacheable", req, out)
+    ctx.correspond("numbers_cache: memo keys, results and miss counts on a real Cacheable", req, out, translated=True)
+
+
+def translated_source_stream(ctx: Ctx):
+    """add_row / add_column / delete_row / delete_column on real tables filled with distinct values, every count and start
+    in -2 .. size+2 (and None), vs the argument checks py2lean translated from document.py.  The start row / column an
+    accepted add used is read off the table (position of the first new empty cell)."""
+    import common
+    from numbers_parser import Document
+    req, out = [], []
+    for nr, nc in ((1, 1), (2, 3), (3, 2)):
+        for op in ("addrow", "addcol", "delrow", "delcol"):
+            size = nr if op.endswith("row") else nc
+            for n in range(-2, size + 3):
+                for st in [None] + list(range(-2, size + 3)):
+                    doc = Document(num_header_rows=0, num_header_cols=0, num_rows=nr, num_cols=nc)
+                    t = doc.sheets[0].tables[0]
+                    for r in range(nr):
+                        for c in range(nc):
+                            t.write(r, c, 1 + r * nc + c)
+                    before = [[cell.value for cell in row] for row in t.rows()]
+                    req.append(f"edit {op} {size} {n} {'n' if st is None else st}")
+                    try:
+                        getattr(t, {"addrow": "add_row", "addcol": "add_column", "delrow": "delete_row", "delcol": "delete_column"}[op])(n, st)
+                    except Exception as e:  # noqa: BLE001
+                        out.append("err " + exc_name(e))
+                        after = [[cell.value for cell in row] for row in t.rows()]
+                        if after != before or (t.num_rows, t.num_cols) != (nr, nc):
+                            ctx.violation("refused-edit-changed-table", f"{op}({n}, {st}) on {nr}x{nc} raised {exc_name(e)} and left {after}",
+                                          {"shape": [nr, nc], "op": op, "n": n, "start": st})
+                        continue
+                    vals = [[cell.value for cell in row] for row in t.rows()]
+                    if op == "addrow":
+                        new = [i for i, row in enumerate(vals) if all(v is None for v in row)]
+                        out.append(f"ok {new[0] if new else (nr if st is None else st)}")
+                    elif op == "addcol":
+                        new = [j for j in range(len(vals[0])) if all(row[j] is None for row in vals)]
+                        out.append(f"ok {new[0] if new else (nc if st is None else st)}")
+                    else:
+                        out.append("ok ")
+    common.translated_only_stream(ctx, "add_row / add_column / delete_row / delete_column: every count and start in -2..size+2 "
+                                       "on 1x1, 2x3, 3x2 tables vs the argument checks translated from the source", req, out,
+                                  exhaustive=True)
 
 
 def run(ctx: Ctx):
     rng = ctx.rng
+    translated_source_stream(ctx)
     shapes = [(1, 1), (2, 2), (2, 3)]
     with _pool() as pool:
         # --- corpus: the out-of-range counts of DESIGN.md section 6 / C03 on a 3x3 table, and past minimised failures
